@@ -355,6 +355,12 @@ class C07(Check):
                     # (stale state after a SUCCESSFUL compile on the template itself) - stop the history here
                     bump('fault_beyond_compile')
                     break
+                if op['fault']['kind'] == 'intr' and getattr(w.objs['T'], 'state', None):
+                    # the interruption came AFTER the compile had stored its state vector on the template (its position
+                    # is arbitrary): that is KF-C07's precondition, like a completed compile - stop the history here.
+                    # (a disk error while the source file is written lies before that point and is followed up)
+                    bump('interrupted_after_state_was_stored')
+                    break
                 bump('failed_compile')
                 obsv.submit(snapshot(w.objs['T']), 'obs_both')
                 expected.append((f'after op #{k} (a compile that failed: {op["fault"]["kind"]})', copy.deepcopy(ref), None))
